@@ -303,8 +303,8 @@ Section CalibSpec.
   Proof. unfold Params.load. induction h as [|x h IH]; intros [|p] r H; simpl in *; try lia; auto. apply IH. lia. Qed.
   Lemma load_store_other h : forall p q r, p <> q -> load (store h q r) p = load h p.
   Proof.
-    unfold Params.load. induction h as [|x h IH]; intros [|p] [|q] r H; simpl; auto; try congruence.
-    apply IH. congruence.
+    unfold Params.load. induction h as [|x h IH]; intros [|p] [|q] r H; simpl; auto; try congruence;
+      try (apply IH; congruence).
   Qed.
   Lemma load_app_old h l p : (p < length h)%nat -> load (h ++ l) p = load h p.
   Proof. intro H. unfold Params.load. apply app_nth1, H. Qed.
@@ -341,7 +341,7 @@ Section CalibSpec.
   Qed.
   Lemma calibrate_rejected h p f m x xs alias : (forall r, snd (set r f x) = false) -> In x xs -> calibrate alias h p f m xs = None.
   Proof.
-    intros Hrej Hin. unfold Params.calibrate_model_parameter. destruct alias; simpl; apply run_trials_rejected; assumption.
+    intros Hrej Hin. unfold Params.calibrate_model_parameter. destruct alias; simpl; apply (run_trials_rejected _ _ _ x); assumption.
   Qed.
 
   (* run_default_calibration: input untouched, the returned parameters are a NEW object holding
@@ -392,4 +392,184 @@ Proof.
   - exfalso. assert (0 < u1 * u2) by nra. lra.
   - destruct (Qlt_le_dec u1 0) as [N1|N1]; destruct (Qlt_le_dec u2 0) as [N2|N2]; try lra.
     exfalso. assert (0 < u1 * u2) by nra. lra.
+Qed.
+
+(* ------------------------------------------------------------------ statements as they appear in Properties/C20.v *)
+Lemma init_eq_reinit_all : forall (fsqrt fgamma : Q -> Q) (fpow : Q -> Q -> Q),
+  (forall sigma p eta1 eta2 intensity, hem_init_xi sigma p eta1 eta2 intensity = hem_reinit_xi sigma p eta1 eta2 intensity)
+  /\ (forall sigma nu theta,
+        vg_init_c fsqrt sigma nu theta = vg_reinit_c fsqrt sigma nu theta
+        /\ vg_init_lambda_p fsqrt sigma nu theta = vg_reinit_lambda_p fsqrt sigma nu theta
+        /\ vg_init_lambda_m fsqrt sigma nu theta = vg_reinit_lambda_m fsqrt sigma nu theta)
+  /\ (forall c g m y,
+        cgmy_init_CGammamY fgamma fpow c g m y = cgmy_reinit_CGammamY fgamma fpow c g m y
+        /\ cgmy_init_MpowerY fgamma fpow c g m y = cgmy_reinit_MpowerY fgamma fpow c g m y
+        /\ cgmy_init_GpowerY fgamma fpow c g m y = cgmy_reinit_GpowerY fgamma fpow c g m y)
+  /\ (forall sigma, bs_init_variance sigma = bs_reinit_variance sigma).
+Proof.
+  intros. repeat apply conj.
+  - exact hem_init_eq_reinit. - exact (vg_init_eq_reinit fsqrt). - exact (cgmy_init_eq_reinit fgamma fpow). - exact bs_init_eq_reinit.
+Qed.
+
+Lemma sync_after_any_history_all : forall (fsqrt fgamma : Q -> Q) (fpow : Q -> Q -> Q),
+  (forall sigma p eta1 eta2 intensity r0 ops, hem_construct sigma p eta1 eta2 intensity = Built r0 ->
+     hem_rebuild (hem_run ops r0) = hem_initialisation_checked (hem_run ops r0))
+  /\ (forall sigma mu_j sigma_j intensity r0 ops, merton_construct sigma mu_j sigma_j intensity = Built r0 ->
+     merton_rebuild (merton_run ops r0) = merton_initialisation_checked (merton_run ops r0))
+  /\ (forall sigma nu theta r0 ops, vg_construct fsqrt sigma nu theta = Built r0 ->
+     vg_rebuild fsqrt (vg_run ops r0) = vg_initialisation_checked fsqrt (vg_run ops r0))
+  /\ (forall c g m y r0 ops, cgmy_construct fgamma fpow c g m y = Built r0 ->
+     cgmy_rebuild fgamma fpow (cgmy_run ops r0) = cgmy_initialisation_checked fgamma fpow (cgmy_run ops r0))
+  /\ (forall sigma r0 ops, bs_construct sigma = Built r0 ->
+     bs_rebuild (bs_run ops r0) = bs_initialisation_checked (bs_run ops r0)).
+Proof.
+  intros. repeat apply conj; intros.
+  - apply hem_sync. eapply hem_construct_valid; eassumption.
+  - apply merton_sync. eapply merton_construct_valid; eassumption.
+  - apply vg_sync. eapply vg_construct_valid; eassumption.
+  - apply cgmy_sync. eapply cgmy_construct_valid; eassumption.
+  - apply bs_sync. eapply bs_construct_valid; eassumption.
+Qed.
+
+(* where the formulas are defined both paths succeed with the same object; elsewhere both raise ZeroDivisionError;
+   and `defined` means: no float division by zero *)
+Lemma sync_outcomes_all : forall (fsqrt fgamma : Q -> Q) (fpow : Q -> Q -> Q),
+  (forall r, hem_initialisation_checked r = (if hem_defined r then Built (hem_initialisation r) else RaisesZeroDivisionError))
+  /\ (forall r, hem_defined r = true <-> ~ h_eta1 r == 1 /\ ~ h_eta2 r == -(1))
+  /\ (forall r, vg_initialisation_checked fsqrt r = (if vg_defined r then Built (vg_initialisation fsqrt r) else RaisesZeroDivisionError))
+  /\ (forall r, vg_defined r = true <-> ~ v_nu r == 0 /\ ~ v_sigma r == 0)
+  /\ (forall r, merton_initialisation_checked r = Built r)
+  /\ (forall r, cgmy_initialisation_checked fgamma fpow r = Built (cgmy_initialisation fgamma fpow r))
+  /\ (forall r, bs_initialisation_checked r = Built (bs_initialisation r)).
+Proof.
+  intros. repeat apply conj; try reflexivity.
+  - exact hem_defined_spec. - exact vg_defined_spec.
+Qed.
+
+Lemma constraints_all :
+  (forall r f v, hem_guard f v = false -> hem_set r f v = (r, false))
+  /\ (forall r f v, hem_guard f v = true -> hem_set r f v = (hem_write f v r, true))
+  /\ (forall v, (hem_guard HSigma v = true <-> 0 <= v) /\ (hem_guard HP v = true <-> 0 < v) /\ (hem_guard HEta1 v = true <-> 0 < v)
+        /\ (hem_guard HEta2 v = true <-> 0 < v) /\ (hem_guard HIntensity v = true <-> 0 <= v) /\ hem_guard HXi v = true)
+  /\ (forall r f v, merton_guard f v = false -> merton_set r f v = (r, false))
+  /\ (forall r f v, merton_guard f v = true -> merton_set r f v = (merton_write f v r, true))
+  /\ (forall v, (merton_guard MSigma v = true <-> 0 <= v) /\ (merton_guard MMuJ v = true <-> 0 <= v)
+        /\ (merton_guard MSigmaJ v = true <-> 0 < v) /\ (merton_guard MIntensity v = true <-> 0 <= v))
+  /\ (forall r f v, vg_guard f v = false -> vg_set r f v = (r, false))
+  /\ (forall r f v, vg_guard f v = true -> vg_set r f v = (vg_write f v r, true))
+  /\ (forall v, (vg_guard VSigma v = true <-> 0 <= v) /\ vg_guard VNu v = true /\ vg_guard VTheta v = true
+        /\ vg_guard VC v = true /\ vg_guard VLambdaP v = true /\ vg_guard VLambdaM v = true)
+  /\ (forall r f v, cgmy_guard f v = false -> cgmy_set r f v = (r, false))
+  /\ (forall r f v, cgmy_guard f v = true -> cgmy_set r f v = (cgmy_write f v r, true))
+  /\ (forall v, (cgmy_guard CC v = true <-> 0 < v) /\ (cgmy_guard CG v = true <-> 0 <= v) /\ (cgmy_guard CM v = true <-> 0 <= v)
+        /\ (cgmy_guard CY v = true <-> v < 2) /\ cgmy_guard CCGammamY v = true /\ cgmy_guard CMpowerY v = true /\ cgmy_guard CGpowerY v = true)
+  /\ (forall r f v, bs_guard f v = false -> bs_set r f v = (r, false))
+  /\ (forall r f v, bs_guard f v = true -> bs_set r f v = (bs_write f v r, true))
+  /\ (forall v, (bs_guard BSigma v = true <-> 0 <= v) /\ bs_guard BVariance v = true).
+Proof.
+  repeat apply conj.
+  - exact hem_set_rejects. - exact hem_set_accepts. - exact hem_guard_spec.
+  - exact merton_set_rejects. - exact merton_set_accepts. - exact merton_guard_spec.
+  - exact vg_set_rejects. - exact vg_set_accepts. - exact vg_guard_spec.
+  - exact cgmy_set_rejects. - exact cgmy_set_accepts. - exact cgmy_guard_spec.
+  - exact bs_set_rejects. - exact bs_set_accepts. - exact bs_guard_spec.
+Qed.
+
+(* generic part: any record class with a setter, an initialisation and a price *)
+Lemma calibration_heap_all : forall (Rec Field : Type) (set : Rec -> Field -> Q -> Rec * bool) (initialisation : Rec -> Rec)
+    (price : Rec -> Q) (dflt : Rec) (h : list Rec) (p : nat) (f : Field) (market : Q) (xs : list Q) (x : Q),
+  (p < length h)%nat ->
+  (* calibrate_model_parameter leaves every pre-existing object as it was, whatever trial values the root finder used *)
+  (forall h', calibrate_model_parameter Rec Field set initialisation price dflt false h p f market xs = Some h' ->
+      forall p', (p' < length h)%nat -> load Rec dflt h' p' = load Rec dflt h p')
+  (* a trial value refused by the setter makes the whole calibration raise *)
+  /\ (forall alias y, (forall r, snd (set r f y) = false) -> In y xs ->
+      calibrate_model_parameter Rec Field set initialisation price dflt alias h p f market xs = None)
+  /\ ((forall r, snd (set r f x) = false) -> run_default_calibration Rec Field set initialisation price dflt h p f market xs x = None)
+  (* run_default_calibration: input untouched; the result is a NEW object = initialisation(input with f := x) *)
+  /\ (forall h' q, run_default_calibration Rec Field set initialisation price dflt h p f market xs x = Some (h', q) ->
+      (forall p', (p' < length h)%nat -> load Rec dflt h' p' = load Rec dflt h p')
+      /\ (length h <= q)%nat
+      /\ snd (set (load Rec dflt h p) f x) = true
+      /\ load Rec dflt h' q = initialisation (fst (set (load Rec dflt h p) f x))
+      (* IF brentq kept its promise (bracket of width delta with a sign change) and the price is L-Lipschitz in the
+         calibrated parameter on [a,b], THEN x is in [a,b] and the returned model reprices within L*delta *)
+      /\ (forall a b delta L, 0 <= L ->
+            Lipschitz (fun y => price (initialisation (fst (set (load Rec dflt h p) f y)))) a b L ->
+            BrentSpec (objective Rec Field set initialisation price (load Rec dflt h p) f market) a b delta x ->
+            (a <= x /\ x <= b) /\ Qabs (price (load Rec dflt h' q) - market) <= L * delta)).
+Proof.
+  intros Rec Field set initialisation price dflt h p f market xs x Hp. repeat apply conj.
+  - intros h' H. eapply calibrate_input_untouched. exact H.
+  - intros alias y Hrej Hin. eapply calibrate_rejected; eassumption.
+  - apply run_default_rejected.
+  - intros h' q H. destruct (run_default_spec _ _ _ _ _ _ _ _ _ _ _ _ _ _ Hp H) as (A & B & C & D).
+    split; [exact A|]. split; [exact B|]. split; [exact C|]. split; [exact D|].
+    intros a b delta L HL Hlip Hb. rewrite D.
+    exact (brent_reprices (fun y => price (initialisation (fst (set (load Rec dflt h p) f y)))) market a b delta x L HL Hlip Hb).
+Qed.
+
+(* class-specific part: the objective brentq sees on its working copy does not depend on the earlier trial values, and the
+   parameters of the returned model are what the constructor builds from the final values *)
+Lemma calibration_classes_all : forall (fsqrt fgamma : Q -> Q) (fpow : Q -> Q -> Q),
+  (forall r f x y, hem_guard f x = true -> hem_guard f y = true ->
+     hem_initialisation (fst (hem_set (hem_initialisation (fst (hem_set r f y))) f x)) = hem_initialisation (fst (hem_set r f x)))
+  /\ (forall r f x, hem_valid r = true ->
+     hem_rebuild (fst (hem_set r f x)) = hem_initialisation_checked (fst (hem_set r f x)))
+  /\ (forall r f x y, merton_guard f x = true -> merton_guard f y = true ->
+     merton_initialisation (fst (merton_set (merton_initialisation (fst (merton_set r f y))) f x)) = merton_initialisation (fst (merton_set r f x)))
+  /\ (forall r f x, merton_valid r = true ->
+     merton_rebuild (fst (merton_set r f x)) = merton_initialisation_checked (fst (merton_set r f x)))
+  /\ (forall r f x y, vg_guard f x = true -> vg_guard f y = true ->
+     vg_initialisation fsqrt (fst (vg_set (vg_initialisation fsqrt (fst (vg_set r f y))) f x)) = vg_initialisation fsqrt (fst (vg_set r f x)))
+  /\ (forall r f x, vg_valid r = true ->
+     vg_rebuild fsqrt (fst (vg_set r f x)) = vg_initialisation_checked fsqrt (fst (vg_set r f x)))
+  /\ (forall r f x y, cgmy_guard f x = true -> cgmy_guard f y = true ->
+     cgmy_initialisation fgamma fpow (fst (cgmy_set (cgmy_initialisation fgamma fpow (fst (cgmy_set r f y))) f x))
+     = cgmy_initialisation fgamma fpow (fst (cgmy_set r f x)))
+  /\ (forall r f x, cgmy_valid r = true ->
+     cgmy_rebuild fgamma fpow (fst (cgmy_set r f x)) = cgmy_initialisation_checked fgamma fpow (fst (cgmy_set r f x)))
+  /\ (forall r f x y, bs_guard f x = true -> bs_guard f y = true ->
+     bs_initialisation (fst (bs_set (bs_initialisation (fst (bs_set r f y))) f x)) = bs_initialisation (fst (bs_set r f x)))
+  /\ (forall r f x, bs_valid r = true ->
+     bs_rebuild (fst (bs_set r f x)) = bs_initialisation_checked (fst (bs_set r f x))).
+Proof.
+  intros. repeat apply conj.
+  - exact hem_trial_absorbs. - intros r f x H. exact (hem_sync [(f, x)] r H).
+  - exact merton_trial_absorbs. - intros r f x H. exact (merton_sync [(f, x)] r H).
+  - exact (vg_trial_absorbs fsqrt). - intros r f x H. exact (vg_sync fsqrt [(f, x)] r H).
+  - exact (cgmy_trial_absorbs fgamma fpow). - intros r f x H. exact (cgmy_sync fgamma fpow [(f, x)] r H).
+  - exact bs_trial_absorbs. - intros r f x H. exact (bs_sync [(f, x)] r H).
+Qed.
+
+(* non-vacuity + the variant without the deep copy DOES modify the input *)
+Lemma nonvacuous_c20 :
+  match hem_construct (1#20) (3#5) 20 25 3 with
+  | Built r0 =>
+      let r := hem_run [(HEta1, 10); (HP, -1); (HXi, 7); (HP, 1#2)] r0 in
+      snd (hem_set r0 HP (-1)) = false /\ h_p r = 1#2 /\ h_xi r = 7
+      /\ Qeq_bool (h_xi (hem_initialisation r)) ((5#9) + (25#52) - 1) = true
+      /\ hem_rebuild r = Built (hem_initialisation r)
+      (* calibration on a one-object heap: with the deep copy the input survives two trials, without it it does not *)
+      /\ (match calibrate_model_parameter HemRec HemField hem_set hem_initialisation h_xi r0 false [r0] 0 HSigma 0 [1#2; 1#4] with
+          | Some h' => Qeq_bool (h_sigma (load HemRec r0 h' 0)) (1#20) && Qeq_bool (h_sigma (load HemRec r0 h' 1)) (1#4) | None => false end = true)
+      /\ (match calibrate_model_parameter HemRec HemField hem_set hem_initialisation h_xi r0 true [r0] 0 HSigma 0 [1#2; 1#4] with
+          | Some h' => Qeq_bool (h_sigma (load HemRec r0 h' 0)) (1#4) | None => false end = true)
+      /\ calibrate_model_parameter HemRec HemField hem_set hem_initialisation h_xi r0 false [r0] 0 HSigma 0 [1#2; -(1#4)] = None
+  | _ => False
+  end
+  /\ hem_construct (1#20) (-1) 20 25 3 = RaisesValueError
+  /\ hem_construct (1#20) (3#5) 1 25 3 = RaisesZeroDivisionError
+  /\ vg_construct (fun x => x) 0 (1#10) 0 = RaisesZeroDivisionError
+  /\ cgmy_construct (fun x => x) (fun x y => x) 1 15 20 2 = RaisesValueError
+  /\ BrentSpec (fun y => y - (1#3)) 0 1 (1#100) (1#3) /\ Lipschitz (fun y => y) 0 1 1.
+Proof.
+  split. { vm_compute. repeat split. }
+  split. { vm_compute. reflexivity. }
+  split. { vm_compute. reflexivity. }
+  split. { vm_compute. reflexivity. }
+  split. { vm_compute. reflexivity. }
+  split.
+  - exists (33#100), (34#100). vm_compute. repeat split; discriminate.
+  - intros y z _ _. assert (E : 1 * Qabs (y - z) == Qabs (y - z)) by ring. rewrite E. apply Qle_refl.
 Qed.
